@@ -250,7 +250,7 @@ class Sim(object):
         if f is not None and self.fired is None and f.get("where") == "event" and f.get("index") == n:
             self._deliver(f, kind, rel, ctx or {})
         elif (f is not None and self.fired is not None and f.get("then") and "second" not in self.fired and self.fired["kind"] != "KILL"
-              and kind in ("open_w", "open_a", "os_open_w", "write", "flush", "close_w")):
+              and kind in (("open_w", "open_a", "os_open_w") if f["then"].get("at") == "open" else ("write", "flush", "close_w"))):
             # a fault *sequence*: whatever the code does to a file after the first fault (an error handler that writes,
             # a retry) meets a second fault.  Code that writes nothing after the first fault never gets here.
             t = f["then"]
